@@ -17,7 +17,7 @@ Link to the code:
 from __future__ import annotations
 
 import gen_c14
-from vlib import Ctx
+from vlib import Ctx, InfraError
 
 PROPERTY = "C14"
 LEAN_TARGETS = ["Ipv8.C14.Props"]
@@ -45,12 +45,13 @@ TRUSTED_BASE = [
 ASSUMPTIONS = [
     "identifiers added to one table all have the table's width (160 bits in the code)",
     "bucket capacity >= 1",
-        "rtts are multiples of 1/1024 s (floats, mostly sub-second) for which n.rtt / node.rtt >= 2.0 is exact; other floats are not exercised",
+        "rtts are multiples of 2^-20 s (floats from ~1 us to 19 s) for which n.rtt / node.rtt >= 2.0 is exact; non-dyadic floats are not exercised",
     "the random source honours its contract (getrandbits(n) < 2^n) - explicit hypothesis of generated_id_in_bucket",
     "a node is dead iff it failed 2 or more queries in a row (pinned: code_constants_admissible and the oracle use the same 2)",
 ]
 
 W = 160
+UNIT = 1 << 20     # rtts travel as integers counting 2^-20 s; the node gets the float k / 2^20 (exact)
 
 
 # ------------------------------------------------------------------------------------------------------------------
@@ -105,40 +106,90 @@ def pb(s: str) -> str:
     return s if s else "-"
 
 
+class Unscriptable(Exception):
+    """raised by the harness' scripted random source for an entry point it cannot answer - never a fault of the code"""
+
+
 class FakeRandom:
-    """scripted replacement for the `random` module inside routing.py"""
+    """scripted replacement for python's global random source inside routing.py: every entry point answers from the bits
+    of `r`, within its documented range.  `returned` lists the integer draws (the model compares only single-draw uses)."""
 
     def __init__(self, r: int):
         self.r = r
+        self.pos = 0            # successive draws consume successive bits of r (cyclically over 256 bits)
         self.calls = []
         self.returned = []
 
-    def _ret(self, v):
+    def _take(self, bound: int) -> int:
+        """a value in range(bound) derived from r; the first draw uses r itself so that single draws stay r mod bound"""
+        if bound <= 0:
+            raise ValueError("empty range")
+        if not self.returned:
+            v = self.r % bound
+        else:
+            rot = ((self.r >> (self.pos % 256)) | (self.r << (256 - self.pos % 256))) & ((1 << 256) - 1)
+            v = (rot ^ (self.pos * 0x9E3779B97F4A7C15)) % bound
+        self.pos += max(1, bound.bit_length() - 1)
         self.returned.append(v)
         return v
 
     def getrandbits(self, n):
         self.calls.append(("getrandbits", n))
-        return self._ret(self.r % (1 << n) if n > 0 else 0)
+        return self._take(1 << n) if n > 0 else self._take(1)
 
     def randint(self, a, b):
         self.calls.append(("randint", a, b))
-        return self._ret(a + self.r % (b - a + 1))
+        return a + self._take(b - a + 1)
 
-    def randrange(self, a, b=None):
+    def randrange(self, a, b=None, step=1):
         self.calls.append(("randrange", a, b))
         if b is None:
             a, b = 0, a
-        return self._ret(a + self.r % (b - a))
+        return a + step * self._take((b - a + step - 1) // step)
 
     def randbytes(self, n):
         self.calls.append(("randbytes", n))
-        v = self.r % (1 << (8 * n)) if n > 0 else 0
-        self.returned.append(v)
-        return v.to_bytes(n, "big")
+        return self._take(1 << (8 * n)).to_bytes(n, "big") if n > 0 else b""
+
+    def choice(self, seq):
+        self.calls.append(("choice", len(seq)))
+        return seq[self._take(len(seq))]
+
+    def choices(self, population, weights=None, *, cum_weights=None, k=1):
+        if weights is not None or cum_weights is not None:
+            raise Unscriptable("weighted choices")
+        return [self.choice(population) for _ in range(k)]
+
+    def sample(self, population, k):
+        pool = list(population)
+        return [pool.pop(self._take(len(pool))) for _ in range(k)]
+
+    def shuffle(self, x):
+        for i in reversed(range(1, len(x))):
+            j = self._take(i + 1)
+            x[i], x[j] = x[j], x[i]
 
     def random(self):
-        return 0.5
+        return self._take(1 << 53) / (1 << 53)
+
+    def uniform(self, a, b):
+        return a + (b - a) * self.random()
+
+    def seed(self, *a, **k):
+        return None
+
+    def __getattr__(self, name):
+        raise Unscriptable(f"random.{name} is not scripted by the harness")
+
+
+def raised_by_harness(e: BaseException) -> bool:
+    """True when the innermost frame of the traceback is harness code (or the exception is the harness' own marker): such an
+    exception says nothing about the code under test and must never be judged as a property failure"""
+    import traceback
+    if isinstance(e, Unscriptable):
+        return True
+    tb = traceback.extract_tb(e.__traceback__)
+    return bool(tb) and "/ipv8/" not in tb[-1].filename and tb[-1].filename.endswith(("c14.py", "vlib.py"))
 
 
 VNOW = 2_000_000_000.0   # virtual "now": Node.status reads the clock through routing.time, which the harness replaces
@@ -158,22 +209,22 @@ class _VTime:
 
 
 def install_clock(routing):
-    """idempotent; covers `import time` and `from time import time` in routing.py"""
-    t = getattr(routing, "time", None)
-    if isinstance(t, _VTime) or getattr(t, "_c14_virtual", False):
-        return
-    if callable(t) and not hasattr(t, "time"):
-        def vtime():
-            return VNOW
-        vtime._c14_virtual = True
-        routing.time = vtime
-    elif t is not None:
-        routing.time = _VTime(t)
+    """idempotent; every module global of routing.py that is the `time` module or the function `time.time` (whatever name it
+    was imported under) is replaced by the virtual clock"""
+    import time as _real
+    import types
+    for name, val in list(vars(routing).items()):
+        if isinstance(val, types.ModuleType) and val is _real:
+            setattr(routing, name, _VTime(_real))
+        elif val is _real.time:
+            def vtime():
+                return VNOW
+            vtime._c14_virtual = True
+            setattr(routing, name, vtime)
 
 
-def now(routing):
-    t = routing.time
-    return t() if callable(t) and not hasattr(t, "time") else t.time()
+def now(routing=None):
+    return VNOW
 
 
 class scripted_random:
@@ -288,6 +339,8 @@ class Impl:
         try:
             return self._check_tree(where)
         except Exception as e:
+            if raised_by_harness(e):
+                raise InfraError(f"harness error while inspecting the table: {type(e).__name__}: {e}") from e
             return self._fail("RoutingTable.get_bucket:raises", f"{where}: inspecting the table raised {type(e).__name__}: {str(e)[:120]}")
 
     def _check_tree(self, where: str):
@@ -366,7 +419,9 @@ class Impl:
         an exact answer and an id inside the bucket for every history), never a harness crash."""
         try:
             return self._apply(op, idx)
-        except Exception as e:  # raised by ipv8 code (harness bugs would show on the unchanged tree as well)
+        except Exception as e:
+            if raised_by_harness(e):     # the harness could not observe the code (its own bug, or internals it relies on are gone)
+                raise InfraError(f"harness error while applying {op[0]}: {type(e).__name__}: {e}") from e
             import traceback
             tb = traceback.extract_tb(e.__traceback__)
             where = next((f"{fr.filename.split('/ipv8/')[-1]}:{fr.lineno}" for fr in reversed(tb) if "/ipv8/" in fr.filename), "?")
@@ -386,7 +441,7 @@ class Impl:
                 self.objs[n.tag] = n
                 self.ntag += 1
                 n.failed = failed
-                n.rtt = rtt / 1024.0
+                n.rtt = rtt / float(UNIT)
                 script_contact(self.routing, n, contact)
             else:
                 # the very same python object that was handed to add earlier (stored, evicted, removed or refused since);
@@ -401,10 +456,10 @@ class Impl:
                     if failed is not None:
                         n.failed = failed
                     if rtt is not None:
-                        n.rtt = rtt / 1024.0
+                        n.rtt = rtt / float(UNIT)
                     if contact is not None:
                         script_contact(self.routing, n, contact)
-                failed, rtt = n.failed, round(n.rtt * 1024)
+                failed, rtt = n.failed, round(n.rtt * UNIT)
             nkeys = len(self.keys())
             tb = None
             try:
@@ -447,7 +502,7 @@ class Impl:
             recent = is_recent(contact) if contact is not None else False
             if n is not None:
                 n.failed = failed
-                n.rtt = rtt / 1024.0
+                n.rtt = rtt / float(UNIT)
                 if contact is not None:
                     script_contact(self.routing, n, contact)
                 recent = n.v_recent
@@ -462,7 +517,7 @@ class Impl:
                 self._fail("Node.status:failed-node-not-bad",
                            f"op {idx}: stored node with failed={n.failed}, last response {now(self.routing) - n.last_response:.0f}s ago "
                            f"reports status {st} (BAD is {self.routing.NODE_STATUS_BAD})")
-            return f"rt.status {bits(ident)}", str(st)
+            return f"rt.status {bits(ident)}", "bad" if st == self.routing.NODE_STATUS_BAD else "live"
         if kind == "rmbad":
             before = self.all_nodes()
             expect = sorted(n.tag for n in before if n.failed >= DEAD_AFTER)
@@ -499,6 +554,15 @@ class Impl:
             self.stats["closest-walk:" + ("whole-table-needed" if len(live) <= k_eff else
                                           "own-bucket-suffices" if n_own > k_eff else "stops-at-an-inner-level")] += 1
             self.stats["closest-result:" + ("k" if len(want) == k_eff else "fewer-than-k")] += 1
+            if n_own <= k_eff:
+                # levels the walk has to climb from the target's bucket until more than k live nodes are in the sub-tree
+                tb_bits, d0 = bits(target), len(own.prefix_id)
+                lb = [bits(int.from_bytes(x.id, "big")) for x in live]
+                lvl = d0
+                while lvl > 0 and sum(1 for y in lb if y.startswith(tb_bits[:lvl])) <= k_eff:
+                    lvl -= 1
+                climbed = d0 - lvl
+                self.stats["closest-levels-climbed:%s" % (climbed if climbed < 10 else "%d0+" % (climbed // 10))] += 1
             if len(res) != len(want) or any(a is not b for a, b in zip(res, want)):
                 self._fail("RoutingTable.closest_nodes:not-k-closest",
                            f"op {idx}: closest_nodes(target={bits(target)[:24]}.., k={k_eff}{' (default)' if k is None else ''}) returned tags "
@@ -532,8 +596,9 @@ class Impl:
             items = []
             BAD = self.routing.NODE_STATUS_BAD
             for k, b in self.keys():
-                ns = ",".join(f"{n.tag}.{n.address[1]}.{1 if n.status == BAD else 0}.{round(n.rtt * 1024)}" for n in b.nodes.values())
-                items.append(f"{pb(k)}:{pb(b.prefix_id)}/{b.max_size}={ns}")
+                ns = ",".join(f"{n.tag}.{n.address[1]}.{1 if n.status == BAD else 0}.{round(n.rtt * UNIT)}"
+                              for n in sorted(b.nodes.values(), key=lambda n: n.tag))
+                items.append(f"{pb(k)}:{pb(b.prefix_id)}/{getattr(b, 'max_size', '?')}={ns}")
             return "rt.dump", "|".join(sorted(items))
         if kind == "genid":
             _, which, r = op
@@ -554,27 +619,47 @@ class Impl:
                     break
             # correspondence: scripted random source; the model is given the value the source actually returned
             line, rep = scripted_genid(self.routing, b, k, r)
-            if rep.startswith("raised"):
-                self._fail("Bucket.generate_id:raises", f"op {idx}: bucket {k!r}, scripted draw {r}: generate_id {rep}")
+            if rep == "raised":
+                self._fail("Bucket.generate_id:raises", f"op {idx}: bucket {k!r}, scripted draw {r}: generate_id raised")
+            elif rep == "unscriptable":
+                self.stats["genid-scripted:source-not-scriptable"] += 1
             return (line or f"rt.bucket {bits(self.me)}"), (rep if line else self._bucket_reply(self.me))
         raise ValueError(kind)
 
 
 def scripted_genid(routing, b, key: str, r: int):
-    """generate_id with every global-random entry point answered from `r`.  Returns (model line or None, reply): the line
-    carries the value the source RETURNED (the model's generateId takes that as its input); None when the code reached
-    no scripted entry point (another randomness source: nothing to compare, the real-random oracle still applies)"""
+    """generate_id with every global-random entry point answered from `r`.  Returns (model line or None, reply).  The line
+    carries the value the source RETURNED (the model's generateId takes that as its input) and exists only when the code
+    made exactly one integer draw (or none, for a bucket without suffix).  reply "unscriptable" = the harness could not
+    answer the code's randomness request (nothing to compare or judge; the real-random oracle still applies)."""
     fake = FakeRandom(r)
     try:
         with scripted_random(routing, fake):
             g = b.generate_id()
         rep = bits(int.from_bytes(g, "big"), 8 * len(g)) if g else "-"
     except Exception as e:
+        if raised_by_harness(e):
+            return None, "unscriptable"
         rep = "raised"
-        fake.error = f"{type(e).__name__}: {e}"
-    if len(fake.returned) != 1:
-        return None, rep
-    return f"rt.genid {pb(key)} {W} {fake.returned[0]}", rep
+    if len(fake.returned) == 1:
+        return f"rt.genid {pb(key)} {W} {fake.returned[0]}", rep
+    if not fake.returned and len(key) == W:
+        return f"rt.genid {pb(key)} {W} {r}", rep          # no suffix, no draw: the model ignores r as well
+    return None, rep
+
+
+def ref_pipeline(prefix: str, r: int) -> str:
+    """CPython's own format / int / unhexlify applied to a given draw r, exactly as the (repaired) generate_id composes them;
+    used to tie the model's formatBin / hexBytes - including the overflow branch r >= 2^n and the no-suffix branch - to
+    CPython, independently of routing.py"""
+    import binascii
+    n = W - len(prefix)
+    suffix = format(r, f"0{n}b") if n else ""
+    try:
+        g = binascii.unhexlify(format(int(prefix + suffix, 2) if prefix + suffix else 0, "0%dX" % (W // 4)))
+    except binascii.Error:
+        return "raised"
+    return bits(int.from_bytes(g, "big"), 8 * len(g))
 
 
 def readd_after_split_ops():
@@ -636,7 +721,8 @@ def gen_id(rng, me: int, state: dict) -> tuple[int, str]:
     return rng.getrandbits(W), "uniform"
 
 
-RTTS = [0, 0, 1, 2, 3, 4, 13, 26, 51, 52, 102, 103, 204, 205, 410, 512, 819, 1024, 2048, 2049, 3000, 8192]   # units of 1/1024 s: mostly sub-second floats, exact ratios 2 (and just below/above) included
+RTTS = [0, 0, 1, 100, 200, 201, 524, 1048, 2097, 13000, 52429, 104858, 209715, 209716, 524288, 1048576, 2097152, 2097153,
+        9000000, 20000000]   # units of 2^-20 s (~1 us): from sub-millisecond to 19 s, exact ratios 2 (and just below/above) included
 
 
 def gen_scenario(ctx: Ctx, rng, n_ops: int, profile: str):
@@ -647,7 +733,7 @@ def gen_scenario(ctx: Ctx, rng, n_ops: int, profile: str):
     state = {"weights": weights, "anchor": rng.getrandbits(W), "anchor_len": rng.randrange(1, 40),
              "narrow": rng.randrange(3, 9), "ids": [],
              "own_scale": {"mixed": 8, "clustered": rng.choice([12, 25, 40]), "deep": 60}.get(profile, 8)}
-    q_closest = 0.82 if profile == "deep" else 0.93
+    q_closest = 0.87 if profile == "deep" else 0.93
     if profile == "foreign" and rng.random() < 0.5:
         # anchor diverges from own id at the first bit: that bucket can never split again once the root has
         state["anchor"] = me ^ (1 << (W - 1))
@@ -685,7 +771,7 @@ def gen_scenario(ctx: Ctx, rng, n_ops: int, profile: str):
             ctx.count("id:" + cls)
             failed = rng.choice([0, 0, 0, 0, 1, 2, 3])
             rtt = rng.choice(RTTS)
-            ctx.count("rtt:" + ("zero" if rtt == 0 else "sub-second" if rtt < 1024 else "one-second-or-more"))
+            ctx.count("rtt:" + ("zero" if rtt == 0 else "sub-millisecond" if rtt < 1049 else "sub-second" if rtt < UNIT else "one-second-or-more"))
             same_key = None
             if rng.random() < 0.04:
                 stored = im.all_nodes()
@@ -739,6 +825,9 @@ def gen_scenario(ctx: Ctx, rng, n_ops: int, profile: str):
             # closing queries over the final table: every k once for a handful of targets
             for k in (1, 2, 7, 8, 9, 20):
                 t, _ = gen_id(rng, me, state)
+                do(("closest", t, k, None))
+            # queries that start at the deepest bucket (target = own id and its neighbours) and have to climb
+            for k, t in ((20, me), (20, me ^ 1), (12, me ^ 3), (len(im.all_nodes()) or 1, me ^ 5)):
                 do(("closest", t, k, None))
             do(("genid", rng.randrange(0, 1000), rng.getrandbits(160)))
     return im, me, m, ops, lines, replies
@@ -849,7 +938,7 @@ def small_scope(ctx: Ctx, w: int, length: int, m: int, mes, use_model=True):
         for seq in itertools.product(range(len(ids)), repeat=length):
             ops = []
             for j, a in enumerate(seq):
-                ops.append(("add", ids[a], 2 if (j + a) % 5 == 4 else 0, (0, 100, 200, 400)[(a * 3 + j) % 4], 1 + j, (1, 3, 0)[(a + j) % 3]))
+                ops.append(("add", ids[a], 2 if (j + a) % 5 == 4 else 0, (0, 100000, 200000, 400000)[(a * 3 + j) % 4], 1 + j, (1, 3, 0)[(a + j) % 3]))
             ops.append(("dump",))
             for t in (ids[seq[0]], ids[-1 - seq[-1]]):
                 ops.append(("closest", t, 1 + (seq[0] % 3), None))
@@ -892,6 +981,8 @@ def trie_do(ctx: Ctx, t, op, hist):
     try:
         return trie_apply(t, op)
     except Exception as e:
+        if raised_by_harness(e):
+            raise InfraError(f"harness error in trie op {op[0]}: {type(e).__name__}: {e}") from e
         ctx.oracle_fail(TRIE_SITE[op[0]] + ":raises", f"after {len(hist)} ops, {op!r} raised {type(e).__name__}: {str(e)[:100]}",
                         {"kind": "trie", "ops": [list(o) for o in hist] + [list(op)]})
         line = {"set": f"t.set {pb(op[1]) if len(op) > 1 else ''} {op[2] if len(op) > 2 else ''}", "vals": "t.vals"}.get(
@@ -943,6 +1034,8 @@ def trie_oracle(ctx: Ctx, t, ref: dict, where, replay):
     try:
         _trie_oracle(ctx, t, ref, where, replay)
     except Exception as e:
+        if raised_by_harness(e):
+            raise InfraError(f"harness error in the trie oracle: {type(e).__name__}: {e}") from e
         ctx.oracle_fail("Trie:raises", f"{where}: a query raised {type(e).__name__}: {str(e)[:100]}", replay)
 
 
@@ -1123,6 +1216,7 @@ def genid_sweep(ctx: Ctx, use_model=True, factor=4):
     from ipv8.dht import routing
     rng = ctx.rng
     lines, replies = [], []
+    ref_lines, ref_replies = [], []
     depths = [(W - n, max(16, factor * (1 << n))) for n in range(0, 13)] + [(L, 40) for L in (0, 1, 2, 3, 7, 8, 9, 63, 64, 65, 100, 127, 128, 140)]
     for L, draws in depths:
         prefix = bits(rng.getrandbits(L), L) if L else ""
@@ -1138,6 +1232,9 @@ def genid_sweep(ctx: Ctx, use_model=True, factor=4):
         n = W - L
         for r in [0, 1, (1 << n) - 1, 1 << n, (1 << n) + 1, rng.getrandbits(160), rng.getrandbits(max(1, n))]:
             line, rep = scripted_genid(routing, b, prefix, r)
+            if rep == "unscriptable":
+                ctx.count("genid-scripted:source-not-scriptable")
+                continue
             if rep == "raised":
                 ctx.oracle_fail("Bucket.generate_id:raises",
                                 f"bucket with prefix {prefix[-24:]!r} ({L} bits): with every random entry point answering from {r}, generate_id raised",
@@ -1148,11 +1245,17 @@ def genid_sweep(ctx: Ctx, use_model=True, factor=4):
                                 f"(each within its documented range) the id is {rep}",
                                 {"kind": "genid-scripted", "prefix": prefix, "r": r})
             if line is None:
-                ctx.count("genid-scripted:source-not-scriptable")
+                ctx.count("genid-scripted:several-draws(not-compared-with-model)")
                 continue
             lines.append(line)
             replies.append(rep)
             case(ctx, ("genid-scripted", L, r), nontrivial=L > 0)
+        # the model's formatting pipeline against CPython's format/int/unhexlify for ARBITRARY draws, including the overflow
+        # branch (r >= 2^n: wider suffix, odd hex length) and the no-suffix branch, which the unchanged code never reaches
+        for r in [0, (1 << n) - 1, 1 << n, (1 << n) + 1, (1 << (n + 3)) + 5, (1 << (n + 4)) - 1, rng.getrandbits(n + 9)]:
+            ref_lines.append(f"rt.genid {pb(prefix)} {W} {r}")
+            ref_replies.append(ref_pipeline(prefix, r))
+            ctx.count("genid-pipeline-vs-cpython:" + ("in-range" if r < (1 << n) else "overflow"))
     if use_model and ctx.model_ok:
         d = ctx.driver()
         model = d.batch(lines)
@@ -1160,6 +1263,12 @@ def genid_sweep(ctx: Ctx, use_model=True, factor=4):
             if a != b_:
                 ctx.disagree(f"generate_id: `{ln[:80]}`: model {a[:170]!r} != implementation {b_[:170]!r}",
                              {"kind": "genid-lines", "line": ln, "model": a, "impl": b_})
+                break
+        model = d.batch(ref_lines)
+        for ln, a, b_ in zip(ref_lines, model, ref_replies):
+            if a != b_:
+                ctx.disagree(f"generate_id pipeline: `{ln[:80]}`: model {a[:170]!r} != CPython format/unhexlify {b_[:170]!r}",
+                             {"kind": "genid-pipeline", "line": ln, "model": a, "cpython": b_})
                 break
 
 
@@ -1199,7 +1308,7 @@ def status_grid(ctx: Ctx, use_model=True):
                                 f"BAD={routing.NODE_STATUS_BAD} is expected exactly for failed >= {DEAD_AFTER}",
                                 {"kind": "status", "failed": failed, "contact": c})
             lines.append(f"node.status {failed} {1 if is_recent(c) else 0}")
-            replies.append(str(st))
+            replies.append(st if isinstance(st, str) else "bad" if st == routing.NODE_STATUS_BAD else "live")
             case(ctx, ("status", failed, c), nontrivial=failed >= DEAD_AFTER and is_recent(c))
             ctx.count("status-grid:%s" % st)
     if use_model and ctx.model_ok:
@@ -1208,6 +1317,76 @@ def status_grid(ctx: Ctx, use_model=True):
             if a != b:
                 ctx.disagree(f"Node.status: `{ln}`: model {a!r} != implementation {b!r}", {"kind": "status-line", "line": ln})
                 break
+
+
+def deep_walk_scenarios(ctx: Ctx, n: int, use_model=True):
+    """closest_nodes on tables that are deep (a cluster of ids sharing 150+ bits with the own id) AND sparse below the top:
+    the level walk starts at depth ~155 and has to climb (almost) to the root because fewer than k live nodes sit in the
+    deep sub-trees.  Targets at the bottom of the tree, k up to the table size and beyond, some deep nodes dead."""
+    rng = ctx.rng
+    for s in range(n):
+        if len(ctx.failures) >= (1 if ctx.searching else 12):
+            break
+        me = rng.getrandbits(W)
+        ops = []
+        deep = rng.sample(range(1, 16), rng.randrange(10, 15))
+        rtt0 = rng.choice(RTTS[2:])     # one rtt for all: no eviction while the tree is built, so the buckets have to split
+        for t in deep:          # all alive while the tree is built: ten nodes sharing 156 bits force splits down to depth ~156
+            ops.append(("add", me ^ t, rng.choice([0, 0, 1]), rtt0, 1 + t, rng.choice([0, 1, 1, 3])))
+        shallow_bits = rng.sample([W - 1, W - 2, W - 3, W - 6, W - 12, W - 40, W - 90, 30, 12], rng.randrange(1, 5))
+        for j in shallow_bits:
+            for _ in range(rng.randrange(1, 4)):
+                ops.append(("add", (me ^ (1 << j)) ^ rng.getrandbits(min(j, 24)), 0, rtt0, 100 + j, 1))
+        rng.shuffle(ops)
+        total = len(ops)
+        for t in rng.sample(deep, rng.randrange(0, 4)):      # some of the deep nodes die afterwards (they stay stored)
+            ops.append(("set", me ^ t, 2, rng.choice(RTTS), rng.choice([None, 1, 3])))
+        ops.append(("dump",))
+        for t in (me, me ^ 1, me ^ rng.choice(deep), me ^ (1 << rng.choice(shallow_bits))):
+            for k in {20, total, max(1, total - 1), rng.randrange(1, 20)}:
+                ops.append(("closest", t, k, rng.choice([None, None, me ^ rng.choice(deep)]), rng.random() < 0.5))
+        im, lines, replies = run_ops(me, None, ops)
+        for kk, vv in im.stats.items():
+            ctx.count(kk, vv)
+        depth = max((len(k) for k, _ in im.keys()), default=0)
+        ctx.count("deep-walk-scenario-depth:%d0+" % (depth // 10))
+        case(ctx, ("deepwalk", me, tuple(ops)), nontrivial=depth >= 100, n=len(ops))
+        if im.fail is not None:
+            report_failure(ctx, im, me, None, ops)
+        if use_model:
+            compare(ctx, lines, replies, {"kind": "routing", "me": me, "m": None, "ops": [list(o) for o in ops]})
+
+
+def real_node_ids(ctx: Ctx):
+    """the hypothesis of every theorem - identifiers have the table's width - checked for the code's own identifier function:
+    real Node objects (no scripted id; IPv4 and IPv6 addresses) have W/8-byte ids and a table filled with them stays valid"""
+    from ipv8.dht import routing
+    from ipv8.messaging.interfaces.udp.endpoint import UDPv6Address
+    rng = ctx.rng
+    im = Impl(rng.getrandbits(W), None)
+    for i in range(60):
+        addr = (("%d.%d.%d.%d" % tuple(rng.randrange(1, 255) for _ in range(4)), rng.randrange(1, 65000)) if i % 3 else
+                UDPv6Address("2001:db8::%x:%x" % (rng.randrange(1, 65000), rng.randrange(1, 65000)), rng.randrange(1, 65000)))
+        try:
+            n = routing.Node(_key(i), addr)
+            n.last_response = VNOW
+            ident = n.id
+            if len(ident) != W // 8:
+                ctx.oracle_fail("Node.id:wrong-width", f"Node(key, {addr}).id has {len(ident)} bytes, the routing table works on {W // 8}",
+                                {"kind": "real-id", "index": i, "address": list(addr)})
+                break
+            im.rt.add(n)
+        except Exception as e:
+            if raised_by_harness(e):
+                raise
+            ctx.oracle_fail("Node.id:raises", f"Node(key, {addr}).id / add raised {type(e).__name__}: {e}",
+                            {"kind": "real-id", "index": i, "address": list(addr)})
+            break
+        ctx.count("real-node-id:" + ("ipv6" if i % 3 == 0 else "ipv4"))
+    im.check_tree("table of real nodes")
+    if im.fail is not None:
+        ctx.oracle_fail(im.fail[0], im.fail[1] + " (real Node objects, ids from calc_node_id)", {"kind": "real-id"})
+    case(ctx, ("real-id",), nontrivial=True, n=60)
 
 
 def run(ctx: Ctx):
@@ -1222,6 +1401,8 @@ def run(ctx: Ctx):
     if ctx.thorough():
         small_scope(ctx, 2, 5, 1, [0, 3 << (W - 2), (1 << W) - 1])
         small_scope(ctx, 4, 3, 3, [0, 9 << (W - 4)])
+    real_node_ids(ctx)
+    deep_walk_scenarios(ctx, ctx.scale(8, 80))
     routing_scenarios(ctx, ctx.scale(24, 300), [60, 150, 150, 300, 400, 700])
     routing_scenarios(ctx, ctx.scale(1, 10), [2000, 2600])
 
@@ -1238,6 +1419,10 @@ def search(ctx: Ctx, reason: str):
     if ctx.failures:
         return
     small_scope(ctx, 3, 4, 2, [0, 3 << (W - 3), 5 << (W - 3)], use_model=False)
+    if ctx.failures:
+        return
+    real_node_ids(ctx)
+    deep_walk_scenarios(ctx, 12, use_model=False)
     if ctx.failures:
         return
     routing_scenarios(ctx, 60, [150, 300, 400, 700], use_model=False)
